@@ -11,6 +11,7 @@
 import KiraModel.Proofs.SpatialLemmas
 import KiraModel.Model.SpatialScene
 import KiraModel.Props.C15_system
+import KiraModel.Proofs.GenAgreeSpatial
 
 namespace K
 
